@@ -69,7 +69,18 @@ func startBroker() error {
 	l, _ := net.Listen("tcp", "127.0.0.1:0")
 	brokerAddr = l.Addr().String()
 	l.Close()
-	brokerCmd = exec.Command(bin, "-addr", brokerAddr, "-disable-tls", "-disable-geoip", "-metrics-log", filepath.Join(dir, "metrics.log"))
+	// the metrics log the broker serves at /metrics is not empty (an empty one hides what a handler does with
+	// the body of a HEAD response); it is small and static, so that response sizes stay far below anything
+	// where TCP-level effects of closing a pipelined connection could truncate a response
+	mlog := filepath.Join(dir, "metrics.log")
+	if mf, err := os.Create(mlog); err == nil {
+		line := []byte("snowflake-stats-end 2026-01-01 00:00:00 (86400 s) " + strings.Repeat("x", 200) + "\n")
+		for i := 0; i < 64<<10/len(line); i++ {
+			mf.Write(line)
+		}
+		mf.Close()
+	}
+	brokerCmd = exec.Command(bin, "-addr", brokerAddr, "-disable-tls", "-disable-geoip", "-metrics-log", mlog)
 	lf, _ := os.Create(filepath.Join(dir, "broker.log"))
 	brokerCmd.Stdout, brokerCmd.Stderr = lf, lf
 	if err := brokerCmd.Start(); err != nil {
